@@ -1,7 +1,7 @@
 (* Real-number lemmas for M_rodrigues.v (C10): the `theta < eps` shortcut returns I; distance to the exact rotation. *)
 From Coq Require Import ZArith Reals Lra Psatz List Bool Lia Nsatz.
 From PW Require Import Num NumR Vec Mat Result.
-From PW.model Require Import M_rodrigues.
+From PW.model Require Import M_rodrigues M_rodrigues_spec.
 From PW.proofs Require Import P_vec P_mat P_rodrigues P_rodrigues_inv.
 Import ListNotations.
 Local Open Scope R_scope.
